@@ -5,7 +5,7 @@ cd /verif/harness
 [ -f Cargo.lock ] || cp /repo/Cargo.lock Cargo.lock
 CARGO_NET_OFFLINE=true cargo build --offline 2>&1 | tail -3
 cd /verif/spec
-for m in Tree Acts Ref ActsProps MCActs TraceActs Observe AckRetry TraceAck StoreQuery TraceStore MCStore Glob Channels TraceChan MCGlob Deploy TraceDeploy TraceTree MCTree MCDeploy Script MCScript TraceScript Gen MCGen TraceGen; do
+for m in Tree Acts Ref ActsProps MCActs TraceActs Observe AckRetry TraceAck StoreQuery TraceStore MCStore Glob Channels TraceChan MCGlob Deploy TraceDeploy TraceTree MCTree MCDeploy Script MCScript TraceScript Gen MCGen TraceGen Data MCData TraceData; do
   tla-sany $m.tla >/dev/null 2>&1 || { echo "SANY failed on $m"; exit 1; }
 done
 echo setup ok
